@@ -23,6 +23,7 @@ import (
 type c18Case struct {
 	Archive vfB     `json:"archive"`
 	Format  string  `json:"format"`
+	MagicName bool  `json:"magic_name"`  // the first member's name begins like another format's magic number
 	Corr    [][]int `json:"corruptions"` // [pos, val] pairs; empty + All=false: forward only
 	All     bool    `json:"all"`         // every position x every value
 }
@@ -40,7 +41,7 @@ func c18Check(c c18Case) vfResult {
 		m := vfDetectAt(a, lim)
 		r.N++
 		if !c18IsTar(m) {
-			if hp := vfEarlierSibling([]*MIME{tar}, vfHeader(a, lim), lim); hp != "" {
+			if hp := vfEarlierSibling([]*MIME{tar}, vfHeader(a, lim), lim); hp != "" && c.MagicName {
 				return vfResult{Skip: "higher-priority-signature:" + hp}
 			}
 			r.Err = fmt.Errorf("%s archive written by archive/tar is reported as %s at limit %d; first block %s", c.Format, vfChainStr(m), lim, vfQ(a[:512]))
@@ -114,6 +115,10 @@ func c18GenArchive(t *rapid.T) ([]byte, string) {
 			// member names that begin like the magic number of another format
 			"BMW/readme.txt", "BM", "ID3v2-tags.md", "II*\x00.tif", "MM\x00*", "GIF89a.txt", "fLaC.notes", "MThd", "FORM", ".snd", "8BPS.psd", "%PDF-notes", "MZ.exe", "OggS", "RIFF", "xar!", "BZh91", "SIMPLE", "wOFF", "Rar!", "070707", "#!AMR", "MAC ", "MPCK", "FLV", "CWS", "icns", "PAR1", "d8:announce", "ftyp", "\x00\x00\x01\x00", "wOF2", "OTTO", "ttcf", "LZIP", "MSCF", "TZif"}).Draw(t, "name")
 		body := rapid.SliceOfN(rapid.Byte(), 0, 60).Draw(t, "body")
+		if rapid.IntRange(0, 3).Draw(t, "magicbody") == 0 {
+			// member CONTENT that looks like another format; only the header block decides
+			body = []byte(rapid.SampledFrom([]string{"%PDF-1.4\n%\xe2\xe3\xcf\xd3\n1 0 obj", "PK\x03\x04\x14\x00", "GIF89a\x01\x00", "\x89PNG\r\n\x1a\n", "MZ\x90\x00", "\x7fELF\x02\x01\x01", "%!PS-Adobe-3.0", "<?xml version=\"1.0\"?><svg/>", "{\"a\":1}", "8BPS\x00\x01", "OggS\x00\x02", "/* XPM */", "7z\xbc\xaf\x27\x1c"}).Draw(t, "mb"))
+		}
 		h := &atar.Header{
 			Name:    name,
 			Mode:    int64(rapid.SampledFrom([]int{0o644, 0o755, 0o600, 0o7777, 0, 0o100644}).Draw(t, "mode")),
@@ -162,9 +167,18 @@ func c18GenArchive(t *rapid.T) ([]byte, string) {
 	return buf.Bytes(), format
 }
 
+func c18MagicName(a []byte) bool {
+	for _, p := range []string{"BM", "ID3", "II*", "MM\x00*", "GIF8", "fLaC", "MThd", "FORM", ".snd", "8BPS", "%PDF-", "MZ", "OggS", "RIFF", "xar!", "BZh", "SIMPLE", "wOF", "Rar!", "0707", "#!AMR", "MAC ", "MPCK", "FLV", "CWS", "icns", "PAR1", "d8:announce", "\x00\x00\x01\x00", "OTTO", "ttcf", "LZIP", "MSCF", "TZif", "././@", "PaxHeader"} {
+		if bytes.HasPrefix(a, []byte(p)) {
+			return true
+		}
+	}
+	return false
+}
+
 func c18Gen(t *rapid.T) c18Case {
 	a, format := c18GenArchive(t)
-	c := c18Case{Archive: a, Format: format}
+	c := c18Case{Archive: a, Format: format, MagicName: c18MagicName(a)}
 	if len(a) > 3072 {
 		c.Archive = a[:3072]
 	}
@@ -216,7 +230,7 @@ func TestVerif_C18(t *testing.T) {
 				if len(a) > 1024 {
 					a = a[:1024]
 				}
-				return c18Case{Archive: a, Format: format, All: true}
+				return c18Case{Archive: a, Format: format, All: true, MagicName: c18MagicName(a)}
 			}})
 	}
 }
